@@ -21,6 +21,7 @@ StepFarBin(e) ==
 StepEdge(e) ==
   /\ e.ev = "edge"
   /\ \A i \in 1..Len(e.items) : Report(e.case, EdgeFails(e.items[i]), e.items[i])
+  /\ \A i \in 1..Len(e.pairs) : Report(e.case, EdgeBinFails(e.pairs[i]), e.pairs[i])
 \* a Rectangle method panicked: the property promises a result for every pair of representable rectangles
 StepPanic(e) == e.ev = "panic" /\ Report(e.case, {"library_call_panicked"}, [msg |-> e.msg, loc |-> e.loc])
 StepUn(e) ==
